@@ -18,3 +18,31 @@ package gateway
 //@   site[seeks_to_the_range_start] invoke:Seeker.Seek : arg1 == rangeStart(ra.From, size) && arg2 == io.SeekStart
 //@   ensures[start_of_file_needs_no_seek] ra == nil || ra.From == 0 ==> err == nil && !called("invoke:Seeker.Seek#0")
 //@   ensures[every_other_range_seeks] ra != nil && ra.From != 0 && (ra.From > 0 || ra.To == nil) ==> called("invoke:Seeker.Seek#0") && err == res("invoke:Seeker.Seek#0", 1)
+
+// ---- C32: every label the gateway produces fits a DNS label ----------------------------------
+//@ func ext (github.com/ipfs/go-cid.Cid).StringOfBase
+//@ func ext github.com/ipfs/go-cid.NewCidV1
+//@ func ext (github.com/ipfs/go-cid.Cid).Type
+//@ func toDNSLabel
+//@   prop C32
+//@   arith int
+//@   modifies nothing
+//@   ensures[fits_a_dns_label] err == nil ==> len(dnsCID) <= dnsLabelMaxLength
+//@   ensures[short_ids_kept] len(rootID) <= dnsLabelMaxLength ==> err == nil && dnsCID == rootID
+// InlineDNSLink: one or two output bytes per input byte, and a result longer than a label is refused
+//@ func InlineDNSLink
+//@   prop C32
+//@   arith int-assumed
+//@   safety index
+//@   modifies nothing
+//@   loop 0 invariant[at_most_two_bytes_per_byte] 0 <= i && i <= len(fqdn) && i <= len(result) && len(result) <= 2 * i
+//@   ensures[fits_a_dns_label] err == nil ==> len(dnsLabel) <= dnsLabelMaxLength
+//@   ensures[never_shorter_than_the_name] err == nil ==> len(dnsLabel) >= len(fqdn)
+// UninlineDNSLink reads inside the label only and never produces more bytes than it read
+//@ func UninlineDNSLink
+//@   prop C32
+//@   arith int-assumed
+//@   safety index
+//@   modifies nothing
+//@   loop 0 invariant[within_the_label] 0 <= i && i <= len(dnsLabel) && len(result) <= i
+//@   ensures[never_longer_than_the_label] len(fqdn) <= len(dnsLabel)
